@@ -165,12 +165,14 @@ qb_array_index(struct qb_array * a, int32_t idx, void **element_out)
 			bin_alloced = QB_TRUE;
 		}
 		/* new_bin_cb() needs to be called unlocked so can't extend the lock after the if block */
+		bin = a->bin[b];
 		QB_VERIF_POINT(QB_VP_ARRAY_UNLOCK, a, 0, 0);
 		(void)qb_thread_unlock(a->grow_lock);
 		if (bin_alloced && a->new_bin_cb) {
 			a->new_bin_cb(a, b);
 		}
 	} else {
+		bin = a->bin[b];
 		QB_VERIF_POINT(QB_VP_ARRAY_UNLOCK, a, 0, 0);
 		(void)qb_thread_unlock(a->grow_lock);
 	}
@@ -178,8 +180,6 @@ qb_array_index(struct qb_array * a, int32_t idx, void **element_out)
 	elem = ELEM_NUM_GET(idx);
 	assert(elem < MAX_ELEMENTS_PER_BIN);
 
-	QB_VERIF_POINT(QB_VP_ARRAY_TABLE_READ, a, b, 1);
-	bin = a->bin[b];
 	*element_out = (bin + (a->element_size * elem));
 
 	return 0;
